@@ -1,6 +1,6 @@
 (* Specification side of C16: the Master Server Query Protocol's filter
    grammar (as a parser of the request's filter string) and reply pages. *)
-From GD Require Import Base.Prelude Model.Strings Model.Net Model.Master Proofs.Str Spec.Rand Spec.CaseEnc.
+From GD Require Import Base.Prelude Model.StrOps Model.Strings Model.Net Model.Master Proofs.Str Spec.Rand Spec.CaseEnc.
 
 (* ---- reply pages ---- *)
 Definition enc_addr (a : addr) : bytes :=
